@@ -9,6 +9,21 @@ use crate::tj::*;
 use crate::util::us;
 use crate::{guarded, Out};
 
+/// factor of the "tiny" scenarios: coefficients below the machine epsilon
+const TINY: f64 = 1e-17;
+
+/// logs a polytope of a tiny scenario scaled back by 1/TINY (rows that are exactly zero with a bias of magnitude 1 - the canonical
+/// empty / unbounded polytopes - are kept as they are)
+fn poly_json_tiny(p: &Polytope, q: f64) -> Value {
+    let mut m = p.mat.clone();
+    let mut b = p.bias.clone();
+    for (mut row, bias) in m.rows_mut().into_iter().zip(b.iter_mut()) {
+        let canonical = row.iter().all(|x| *x == 0.0) && bias.abs() == 1.0;
+        if !canonical { row.mapv_inplace(|x| x / TINY); *bias /= TINY; }
+    }
+    poly_json(&Polytope::from_mats(m, b), q)
+}
+
 fn vecf(v: &Value, q: f64) -> Array1<f64> {
     Array1::from_iter(v.as_array().unwrap().iter().map(|x| x.as_f64().unwrap() / q))
 }
@@ -95,7 +110,10 @@ fn poly_step(p: &Polytope, st: &Value) -> Polytope {
 fn poly_ctor(c: &Value) -> Polytope {
     let q = c.get("q").and_then(|v| v.as_f64()).unwrap_or(1.0);
     match c["ctor"].as_str().unwrap() {
-        "rows" => poly_from(&c["p"]),
+        "rows" => {
+            let p = poly_from(&c["p"]);
+            if c.get("tiny").and_then(|v| v.as_bool()).unwrap_or(false) { Polytope::from_mats(&p.mat * TINY, &p.bias * TINY) } else { p }
+        }
         "hypercube" => Polytope::hypercube(us(&c["dim"]), c["r"].as_f64().unwrap() / q),
         "hyperrectangle" => {
             let iv: Vec<(f64, f64)> = c["bounds"].as_array().unwrap().iter().map(|b| bounds(b, q)).collect();
@@ -158,6 +176,8 @@ pub fn run(sc: &Value, id: usize, out: Out) {
                 let x = vecf(pt, sc["ctor"]["dist_den"].as_f64().unwrap_or(1.0));
                 guarded(|| p.distance(&x).iter().map(|v| fnum(*v)).collect::<Vec<_>>()).unwrap_or_default()
             } else { vec![] };
+            let tiny = sc["ctor"].get("tiny").and_then(|v| v.as_bool()).unwrap_or(false);
+            let pj = |p: &Polytope, q: f64| if tiny { poly_json_tiny(p, q) } else { poly_json(p, q) };
             let pipe = sc["pipe"].as_array().cloned().unwrap_or_default();
             let lastonly = sc.get("lastonly").and_then(|v| v.as_bool()).unwrap_or(false);
             if !lastonly || pipe.is_empty() {
@@ -168,11 +188,11 @@ pub fn run(sc: &Value, id: usize, out: Out) {
                 if lastonly && j + 1 < pipe.len() {
                     match guarded(|| poly_step(&p, st)) { Ok(p2) => { p = p2; continue; } Err(_) => return }
                 }
-                let pre = poly_json(&p, q);
+                let pre = pj(&p, q);
                 let qs = st.get("qout").and_then(|v| v.as_f64()).unwrap_or(q);
                 match guarded(|| poly_step(&p, st)) {
                     Ok(p2) => {
-                        emit(json!({"step": j, "res": "ok", "op": st["op"], "pre": pre, "post": poly_json(&p2, qs), "arg": st, "contains": contains_grid(&p2, 2, 3), "dist": []}));
+                        emit(json!({"step": j, "res": "ok", "op": st["op"], "pre": pre, "post": pj(&p2, qs), "arg": st, "contains": contains_grid(&p2, 2, 3), "dist": []}));
                         p = p2;
                     }
                     Err(_) => { emit(json!({"step": j, "res": "panic", "op": st["op"], "pre": pre, "post": {"none": true}, "arg": st, "contains": [], "dist": []})); return; }
